@@ -92,6 +92,26 @@ pub fn observe(pal: &Palette, case: &Case) -> Obs {
         for ext in ["shp", "shx", "dbf"] {
             std::fs::write(path.with_extension(ext), vec![0xEEu8; 70_000]).expect("prefill");
         }
+        // a neighbouring data set whose name differs by case only (another shape, a row numbered 777): created
+        // before the real one for histories of even length, after it for odd ones
+        let decoy = |dir: &std::path::Path| {
+            let (a, b, c) = (Dev::quiet(vec![]), Dev::quiet(vec![]), Dev::quiet(vec![]));
+            {
+                let mut w = shapefile::Writer::new(shapefile::ShapeWriter::with_shx(a.clone(), b.clone()), table::table_writer(c.clone()));
+                let _ = write_pair(&mut w, &pal.lib[1], &table::good_row(777));
+                let _ = write_pair(&mut w, &pal.lib[1], &table::good_row(778));
+                let _ = write_pair(&mut w, &pal.lib[1], &table::good_row(779));
+                let _ = write_pair(&mut w, &pal.lib[1], &table::good_row(780));
+                let _ = write_pair(&mut w, &pal.lib[1], &table::good_row(781));
+            }
+            let stem = format!("C08-{}", tid);
+            let _ = std::fs::write(dir.join(format!("{}.SHX", stem)), b.data());
+            let _ = std::fs::write(dir.join(format!("{}.DBF", stem)), c.data());
+        };
+        let with_decoy = case.variant == 0;
+        if with_decoy && case.ops.len() % 2 == 0 {
+            decoy(&dir);
+        }
         {
             let mut w = shapefile::Writer::from_path(&path, table::builder()).expect("create files");
             let mut rs = vec![];
@@ -110,6 +130,9 @@ pub fn observe(pal: &Palette, case: &Case) -> Obs {
                 });
             }
             results = rs;
+        }
+        if with_decoy && case.ops.len() % 2 == 1 {
+            decoy(&dir);
         }
         shp = std::fs::read(&path).unwrap_or_default();
         // the companion files are the ones whose names differ from the .shp's in the extension only
@@ -142,6 +165,9 @@ pub fn observe(pal: &Palette, case: &Case) -> Obs {
         });
         for ext in ["shp", "shx", "dbf"] {
             let _ = std::fs::remove_file(path.with_extension(ext));
+        }
+        for ext in ["SHX", "DBF"] {
+            let _ = std::fs::remove_file(dir.join(format!("C08-{}.{}", tid, ext)));
         }
     } else {
         let env = PEnv::new();
@@ -621,7 +647,7 @@ pub fn check(tier: Tier) -> i32 {
             tier,
             level: "model_checking",
             engine: "E1 stateright BFS over write-call histories on the real complete Writer (three instrumented devices / from_path), read back with the real complete Reader",
-            rule: "every history up to the depth bound over {OkA, OkB, BadType, RowMissingField, RowWrongType, RowWrongFirstField} (first call accepted), rows carry the position of their call; in memory to the full depth, through Writer::from_path + shapefile::read / Reader::from_path (over paths that already hold longer files; also with a file name that has several dots, the companion files being looked up under their proper names) and into in-memory buffers that already hold longer stale content, and with a shape whose measures are all no-data resp. with empty parts in the middle and at the end, each to depth 3; all-success histories also through one write_shapes_and_records call; a second data set created through Reader::into_table_info + Writer::from_path_with_info gives the same three files; every file read back through read, iter_shapes_and_records and their typed forms read_as / iter_shapes_and_records_as; plus all-success histories of 255..2049 pairs (record-count ladder around powers of two, 1025 also by path); non-trivial = >= 2 calls",
+            rule: "every history up to the depth bound over {OkA, OkB, BadType, RowMissingField, RowWrongType, RowWrongFirstField} (first call accepted), rows carry the position of their call; in memory to the full depth, through Writer::from_path + shapefile::read / Reader::from_path (over paths that already hold longer files, next to the companion files of a data set whose name differs by case only; also with a file name that has several dots, the companion files being looked up under their proper names) and into in-memory buffers that already hold longer stale content, and with a shape whose measures are all no-data resp. with empty parts in the middle and at the end, each to depth 3; all-success histories also through one write_shapes_and_records call; a second data set created through Reader::into_table_info + Writer::from_path_with_info gives the same three files; every file read back through read, iter_shapes_and_records and their typed forms read_as / iter_shapes_and_records_as; plus all-success histories of 255..2049 pairs (record-count ladder around powers of two, 1025 also by path); non-trivial = >= 2 calls",
             bounds: json!({"depth": depth, "disk_depth": disk_depth, "types": types.iter().map(|t| t.name()).collect::<Vec<_>>(), "alphabet": POPS.iter().map(|p| p.name()).collect::<Vec<_>>()}),
             exhaustive: true,
             assumptions: vec!["dbf tables without deleted rows; entry counts are read by the harness from the raw bytes (RefCodec scan, .shx parse, .dbf header bytes 4..8)".into()],
